@@ -462,6 +462,30 @@ def run_pair(spec):
         mode = ("local_write", "remote_write", "remote_read", "remote_read_own")[i % 4]
         res.case(core.h64("pair", mode, i, spec["shard"]))
         try:
+            if i % 8 == 5:
+                # the other side has ended the channel with an error nobody has looked at yet: a write is still refused as a
+                # write on a closed file (OSError), and the error stays where it is for whoever asks the channel
+                from execnet.gateway_base import RemoteError
+
+                ech = gw.remote_exec(rng.choice(("raise ValueError('the peer fails')", "channel.close('the peer gives up')")))
+                ef = ech.makefile("w", proxyclose=rng.random() < 0.5)
+                pairs.wait_until(ech.isclosed, 10.0)
+                res.count("writes_after_an_error_close_by_the_peer")
+                try:
+                    ef.write("late")
+                    ef.flush()
+                    res.violation("write-after-close-accepted", "after the peer closed with an error")
+                except OSError:
+                    pass
+                except BaseException as e:  # noqa
+                    res.violation(f"write-after-close-wrong-exception:{type(e).__name__}", f"after the peer closed with an error: {str(e)[-120:]}")
+                try:
+                    ech.waitclose(10)
+                    res.violation("error-of-the-peer-consumed-by-a-write", "waitclose() after the refused write returned normally")
+                except RemoteError:
+                    pass
+                except BaseException as e:  # noqa
+                    res.violation("error-of-the-peer-consumed-by-a-write", f"waitclose() after the refused write: {type(e).__name__}")
             if mode == "local_write":
                 # written objects arrive one per write, in order (any serialisable object may be written)
                 items = [rng.choice([g.gen_str(), g.gen_bytes(), "", "line\n", g.value(4)]) for _ in range(rng.randint(0, 8))]
